@@ -19,7 +19,8 @@ Class == [ c0 |-> <<>>, c1 |-> <<1>>, c2 |-> <<2>>, c3 |-> <<3>>, cfc |-> <<252>
            c2p64m1 |-> B8(255) ]
 TypeClasses == DOMAIN Class
 LenClasses  == DOMAIN Class \ {"c3"}
-Filler == 170
+\* the value bytes differ from record to record (171, 172, ...), so that values that alias or get mixed up show
+FillerOf(k) == 170 + k
 
 Disc(w) == IF w = 3 THEN 253 ELSE IF w = 5 THEN 254 ELSE 255
 TokBytes(v, w) == IF w = 1 THEN EncBig(v) ELSE <<Disc(w)>> \o Pad(v, w - 1)
@@ -49,17 +50,17 @@ Close == /\ Starved(m)
 FeedValue ==
   /\ Starved(m) /\ m.st = "value"
   /\ \/ /\ Small(m.rem)                                   \* the whole value
-        /\ LET r == <<[b |-> Filler, n |-> NatOfNum(m.rem)]>> IN
+        /\ LET r == <<[b |-> FillerOf(nrec), n |-> NatOfNum(m.rem)]>> IN
            /\ m' = [m EXCEPT !.inp = r]
            /\ fed' = fed \o r
            /\ toks' = Append(toks, [k |-> "value", c |-> "full", w |-> 0, cut |-> 0])
      \/ /\ Small(m.rem) /\ m.rem # <<1>>                  \* one byte short, then EOF
-        /\ LET r == <<[b |-> Filler, n |-> NatOfNum(m.rem) - 1]>> IN
+        /\ LET r == <<[b |-> FillerOf(nrec), n |-> NatOfNum(m.rem) - 1]>> IN
            /\ m' = [m EXCEPT !.inp = r, !.closed = TRUE]
            /\ fed' = fed \o r
            /\ toks' = Append(toks, [k |-> "value", c |-> "short", w |-> 0, cut |-> 1])
      \/ /\ ~Small(m.rem)                                  \* a length no input can satisfy: one byte, EOF
-        /\ LET r == <<[b |-> Filler, n |-> 1]>> IN
+        /\ LET r == <<[b |-> FillerOf(nrec), n |-> 1]>> IN
            /\ m' = [m EXCEPT !.inp = r, !.closed = TRUE]
            /\ fed' = fed \o r
            /\ toks' = Append(toks, [k |-> "value", c |-> "one", w |-> 0, cut |-> 1])
